@@ -3,6 +3,10 @@ import OpdaProofs.EmpCurves
 import OpdaProofs.EmpMore
 import OpdaProofs.MaxOfN
 import OpdaProofs.UStat
+import OpdaProofs.EmpAvg
+import OpdaProofs.EmpQtc
+import OpdaProofs.EmpDrv
+import OpdaProofs.EmpDualExt
 /-!
 # C04 — empirical tuning curves equal the best-of-n order-statistic definitions
 
@@ -10,7 +14,7 @@ The executable model is `OpdaModel/EmpCurves.lean` (+ `Emp.ppf` for the quantile
 `q^(1/n)` resp. `1-(1-q)^(1/n)` is computed by the harness with the specified formula).
 -/
 namespace Opda.Props.C04
-open Opda.Emp Finset
+open Opda.Emp Opda.Wire Opda.Drv.Emp Finset
 
 /-- **what `F(y)^n` is**: for any weighted sample, the n-th power of the total weight `≤ t` is the probability that
 all of `n` independent draws are `≤ t` (finite product measure) — so the law with cdf `F^n` *is* the law of the
@@ -83,6 +87,221 @@ theorem quantile_curve_monotone_in_level {E α : Type} [LinearOrder E] [OrderBot
     (a b : E) (obs : List (E × α)) (hn : NonNeg obs) (htot : 0 < total obs)
     (l l' : α) (h0 : 0 < l) (hll : l ≤ l') (h1 : l' ≤ 1) :
     ppf a (support ⊥ ⊤ a b obs) l ≤ ppf a (support ⊥ ⊤ a b obs) l' := ppf_mono a b obs hn htot l l' h0 hll h1
+
+
+/-! ### V-statistic curve = average curve (T3) -/
+
+section
+variable {α : Type} [Field α] [LinearOrder α] [IsStrictOrderedRing α]
+
+/-- **`v_tuning_curve(n) = average_tuning_curve(n)`, maximise**: for every finite sample `ys` (ties allowed, any order),
+every sorted arrangement `s` of it (`np.sort`) and *every* function `pw` in the role of `x ↦ xⁿ`,
+`Σ_i s[i]·(pw((i+1)/N) − pw(i/N)) = Σ_j v_j·(pw F_j − pw F_{j−1})` over the merged atoms `v_j` of the unweighted sample
+(`avgSum l = Σ_{(v,w) ∈ l} v·w`). -/
+theorem v_eq_average (pw : α → α) (ys s : List α) (hperm : s.Perm ys) (hsorted : s.Pairwise (· ≤ ·)) :
+    avgSum (s.zip (vWeights pw ys.length))
+      = avgSum (bestWeights pw false (withPrev (cumN (atoms (ys.map fun y => (y, (1 : α))))))) :=
+  v_eq_average_max pw ys s hperm hsorted
+
+/-- **the same for `minimize=True`**: the code pairs the *same* weights with the sample sorted in decreasing order
+(`_original_ys_reverse_sorted`), the average curve uses the survival form `(1−F_{j−1})ⁿ − (1−F_j)ⁿ`. -/
+theorem v_eq_average_minimize (pw : α → α) (ys s : List α) (hne : ys ≠ []) (hperm : s.Perm ys)
+    (hsorted : s.Pairwise (· ≤ ·)) :
+    avgSum (s.reverse.zip (vWeights pw ys.length))
+      = avgSum (bestWeights pw true (withPrev (cumN (atoms (ys.map fun y => (y, (1 : α))))))) :=
+  v_eq_average_min pw ys s hne hperm hsorted
+
+/-- non-vacuity: a tied sample and its sorted arrangement -/
+example : ([1, 3, 3, 7] : List ℚ).Perm [3, 7, 1, 3] ∧ ([1, 3, 3, 7] : List ℚ).Pairwise (· ≤ ·)
+    ∧ ([3, 7, 1, 3] : List ℚ) ≠ [] := by
+  refine ⟨by decide, ?_, by simp⟩
+  simp only [List.pairwise_cons, List.mem_cons, List.not_mem_nil, or_false, forall_eq_or_imp, forall_eq,
+    IsEmpty.forall_iff, implies_true, List.Pairwise.nil, and_true]
+  norm_num
+
+/-- the merged atoms do not depend on the order of the observations -/
+theorem atoms_permutation_invariant {E : Type} [LinearOrder E] {obs obs' : List (E × α)} (h : obs.Perm obs') :
+    atoms obs = atoms obs' := atoms_perm h
+
+/-! ### monotone in `n` (T6, average curve) -/
+
+/-- **average curve, maximise, is monotone in `n`** — abstract powers: `pwm ≤ pwn` on `[0,1]` (true of `x^m ≤ x^n` for
+`n ≤ m`), both agreeing at 0 and at 1; every weighted sample with non-negative weights and positive total. -/
+theorem average_monotone_in_n (pwn pwm : α → α) (obs : List (α × α)) (hn : NonNeg obs) (htot : 0 < total obs)
+    (hle : ∀ x, 0 ≤ x → x ≤ 1 → pwm x ≤ pwn x) (h0 : pwm 0 = pwn 0) (h1 : pwm 1 = pwn 1) :
+    avgSum (bestWeights pwn false (withPrev (cumN (atoms obs))))
+      ≤ avgSum (bestWeights pwm false (withPrev (cumN (atoms obs)))) :=
+  average_mono_max pwn pwm obs hn htot hle h0 h1
+
+/-- **average curve, minimise**: the reverse inequality. -/
+theorem average_monotone_in_n_minimize (pwn pwm : α → α) (obs : List (α × α)) (hn : NonNeg obs)
+    (htot : 0 < total obs) (hle : ∀ x, 0 ≤ x → x ≤ 1 → pwm x ≤ pwn x) (h0 : pwm 0 = pwn 0) (h1 : pwm 1 = pwn 1) :
+    avgSum (bestWeights pwm true (withPrev (cumN (atoms obs))))
+      ≤ avgSum (bestWeights pwn true (withPrev (cumN (atoms obs)))) :=
+  average_mono_min pwn pwm obs hn htot hle h0 h1
+
+/-- the underlying Abel-summation statement on an arbitrary level list `[(v_j, F_j)]` -/
+theorem average_monotone_of_levels (pwn pwm : α → α) (l : List (α × α))
+    (hs : l.Pairwise fun p q => p.1 ≤ q.1) (hd : ∀ p ∈ l, pwm p.2 ≤ pwn p.2) (h0 : pwm 0 = pwn 0)
+    (hlast : ∀ p, l.getLast? = some p → pwm p.2 = pwn p.2) :
+    avgSum (bestWeights pwn false (withPrev l)) ≤ avgSum (bestWeights pwm false (withPrev l)) :=
+  avgSum_mono_of_levels pwn pwm l hs hd h0 hlast
+
+/-- natural exponents in any ordered field (what the driver evaluates in `ℚ`) -/
+theorem average_monotone_in_n_pow (obs : List (α × α)) (hnn : NonNeg obs) (htot : 0 < total obs)
+    (n m : ℕ) (hn : 0 < n) (hnm : n ≤ m) :
+    avgSum (bestWeights (fun x => x ^ n) false (withPrev (cumN (atoms obs))))
+      ≤ avgSum (bestWeights (fun x => x ^ m) false (withPrev (cumN (atoms obs)))) :=
+  average_mono_max_pow obs hnn htot n m hn hnm
+
+theorem average_monotone_in_n_pow_minimize (obs : List (α × α)) (hnn : NonNeg obs) (htot : 0 < total obs)
+    (n m : ℕ) (hn : 0 < n) (hnm : n ≤ m) :
+    avgSum (bestWeights (fun x => x ^ m) true (withPrev (cumN (atoms obs))))
+      ≤ avgSum (bestWeights (fun x => x ^ n) true (withPrev (cumN (atoms obs)))) :=
+  average_mono_min_pow obs hnn htot n m hn hnm
+
+/-! ### minimise / maximise duality (T7) -/
+
+/-- **average curve**: the minimise-average of a weighted sample is minus the maximise-average of the negated sample
+(same weights), for every `pw`; the only hypothesis is a non-zero total weight. -/
+theorem average_min_max_duality (pw : α → α) (obs : List (α × α)) (htot : total obs ≠ 0) :
+    avgSum (bestWeights pw true (withPrev (cumN (atoms obs))))
+      = -avgSum (bestWeights pw false (withPrev (cumN (atoms (negObs obs))))) :=
+  Opda.Emp.average_min_max_duality pw obs htot
+
+/-- the mechanism: negation reverses the merged atom list -/
+theorem atoms_of_negated_sample {E E' : Type} [LinearOrder E] [LinearOrder E'] (ν : E → E') (hν : StrictAnti ν)
+    (obs : List (E × α)) : atoms (mapObs ν obs) = (mapObs ν (atoms obs)).reverse := atoms_mapObs_anti ν hν obs
+
+/-- **quantile function**: with `ν` an order-reversing involution of the value type (negation), bounds `(ν b, ν a)` for
+the mirrored sample, and `0 < l < 1` **not equal to any value of the cdf** (the tie exclusion of the property):
+`ppf(l) = ν (ppf_mirrored(1 − l))`. -/
+theorem quantile_min_max_duality_level {E : Type} [LinearOrder E] [OrderBot E] [OrderTop E]
+    (ν : E → E) (hν : StrictAnti ν) (hinv : ∀ x, ν (ν x) = x)
+    (a b : E) (obs : List (E × α)) (hn : NonNeg obs) (htot : 0 < total obs)
+    (hbounds : ∀ p ∈ obs, a ≤ p.1 ∧ p.1 ≤ b)
+    (l : α) (hl0 : 0 < l) (hl1 : l < 1) (hnotie : ∀ y, cdf (support ⊥ ⊤ a b obs) y ≠ l) :
+    ppf a (support ⊥ ⊤ a b obs) l = ν (ppf (ν b) (support ⊥ ⊤ (ν b) (ν a) (mapObs ν obs)) (1 - l)) :=
+  ppf_mirror ν hν hinv a b obs hn htot hbounds l hl0 hl1 hnotie
+
+end
+
+/-- the same on the driver's terms (`Ext` values, `ℚ` weights, `Ext.neg`) -/
+theorem quantile_min_max_duality_driver (a b : Ext) (obs : List (Ext × ℚ)) (hn : NonNeg obs) (htot : 0 < total obs)
+    (hbounds : ∀ p ∈ obs, a ≤ p.1 ∧ p.1 ≤ b)
+    (l : ℚ) (hl0 : 0 < l) (hl1 : l < 1) (hnotie : ∀ y, cdf (support Ext.negInf Ext.posInf a b obs) y ≠ l) :
+    ppf a (support Ext.negInf Ext.posInf a b obs) l
+      = Ext.neg (ppf (Ext.neg b) (support Ext.negInf Ext.posInf (Ext.neg b) (Ext.neg a) (mapObs Ext.neg obs)) (1 - l)) :=
+  ppf_mirror_ext a b obs hn htot hbounds l hl0 hl1 hnotie
+
+/-- **the tie exclusion is necessary**: for the sample `{0, 1}` with bounds `[0,1]` and the level `l = 1/2 = cdf(0)`, every
+other hypothesis of the duality holds, yet `ppf(1/2) = 0` while the mirrored side gives `1`. -/
+theorem quantile_duality_fails_at_a_tie :
+    let obs : List (Ext × ℚ) := [(Ext.fin 0, 1), (Ext.fin 1, 1)]
+    NonNeg obs ∧ 0 < total obs ∧ (∀ p ∈ obs, Ext.fin 0 ≤ p.1 ∧ p.1 ≤ Ext.fin 1)
+      ∧ cdf (support ⊥ ⊤ (Ext.fin 0) (Ext.fin 1) obs) (Ext.fin 0) = 1 / 2
+      ∧ ppf (Ext.fin 0) (support ⊥ ⊤ (Ext.fin 0) (Ext.fin 1) obs) (1 / 2) = Ext.fin 0
+      ∧ Ext.neg (ppf (Ext.neg (Ext.fin 1)) (support ⊥ ⊤ (Ext.neg (Ext.fin 1)) (Ext.neg (Ext.fin 0))
+          (mapObs Ext.neg obs)) (1 - 1 / 2)) = Ext.fin 1 := ppf_mirror_fails_at_tie
+
+/-- non-vacuity of the duality: the same sample at the level `1/3` (not a cdf value: the cdf takes the values 0, 1/2, 1). -/
+example : ∀ y, cdf (support ⊥ ⊤ (Ext.fin 0) (Ext.fin 1) ([(Ext.fin 0, 1), (Ext.fin 1, 1)] : List (Ext × ℚ))) y ≠ 1 / 3 := by
+  intro y
+  rw [cdf_support]
+  simp only [weightLE, total]
+  split_ifs <;> norm_num
+
+/-! ### the quantile curve: which term it is, duality, monotone in `n` (T1, T6, T7) -/
+
+section
+variable {E : Type} [LinearOrder E] [OrderBot E] [OrderTop E]
+
+/-- **what the quantile tuning curve is**: `ppf` of the constructor model at the level `q^(1/n)` resp. `1 − (1−q)^(1/n)`
+(the driver's `emp.ppf` op evaluates `ppf d.a supp level` with the level supplied by the harness from this formula), so
+`quantile_curve_monotone_in_level` and the theorems below are statements about the quantile curve. -/
+theorem qtc_is_ppf_at_level (a : E) (supp : List (E × ℝ)) (q n : ℝ) :
+    qtcMax a supp q n = ppf a supp (q ^ (1 / n)) ∧ qtcMin a supp q n = ppf a supp (1 - (1 - q) ^ (1 / n)) :=
+  ⟨rfl, rfl⟩
+
+/-- **maximise quantile curve is non-decreasing in `n`** (real `0 < n ≤ m`, `q ∈ [0,1]`). -/
+theorem quantile_curve_monotone_in_n (a b : E) (obs : List (E × ℝ)) (hnn : NonNeg obs) (htot : 0 < total obs)
+    (q n m : ℝ) (hq0 : 0 ≤ q) (hq1 : q ≤ 1) (hn : 0 < n) (hnm : n ≤ m) :
+    qtcMax a (support ⊥ ⊤ a b obs) q n ≤ qtcMax a (support ⊥ ⊤ a b obs) q m :=
+  qtcMax_mono_n a b obs hnn htot q n m hq0 hq1 hn hnm
+
+/-- **minimise quantile curve is non-increasing in `n`**. -/
+theorem quantile_curve_monotone_in_n_minimize (a b : E) (obs : List (E × ℝ)) (hnn : NonNeg obs)
+    (htot : 0 < total obs) (q n m : ℝ) (hq0 : 0 ≤ q) (hq1 : q ≤ 1) (hn : 0 < n) (hnm : n ≤ m) :
+    qtcMin a (support ⊥ ⊤ a b obs) q m ≤ qtcMin a (support ⊥ ⊤ a b obs) q n :=
+  qtcMin_anti_n a b obs hnn htot q n m hq0 hq1 hn hnm
+
+/-- **`qtc_min(ys, q) = −qtc_max(−ys, 1−q)`** with bounds `(−b, −a)`, for `0 < q < 1`, real `n > 0`, away from exact ties
+between the level and a cdf value. -/
+theorem quantile_min_max_duality (ν : E → E) (hν : StrictAnti ν) (hinv : ∀ x, ν (ν x) = x)
+    (a b : E) (obs : List (E × ℝ)) (hnn : NonNeg obs) (htot : 0 < total obs)
+    (hbounds : ∀ p ∈ obs, a ≤ p.1 ∧ p.1 ≤ b) (q n : ℝ) (hq0 : 0 < q) (hq1 : q < 1) (hn : 0 < n)
+    (hnotie : ∀ y, cdf (support ⊥ ⊤ a b obs) y ≠ 1 - (1 - q) ^ (1 / n)) :
+    qtcMin a (support ⊥ ⊤ a b obs) q n
+      = ν (qtcMax (ν b) (support ⊥ ⊤ (ν b) (ν a) (mapObs ν obs)) (1 - q) n) :=
+  qtc_min_max_duality ν hν hinv a b obs hnn htot hbounds q n hq0 hq1 hn hnotie
+
+end
+
+/-- non-vacuity of `quantile_min_max_duality`: sample `{0, 1}`, `q = 1/3`, `n = 1` — the level `1/3` is not a cdf value
+(the cdf takes the values 0, 1/2, 1). -/
+example : ∀ y, cdf (support ⊥ ⊤ (Ext.fin 0) (Ext.fin 1) ([(Ext.fin 0, 1), (Ext.fin 1, 1)] : List (Ext × ℝ))) y
+    ≠ 1 - (1 - 1 / 3 : ℝ) ^ ((1 : ℝ) / 1) := by
+  intro y
+  rw [cdf_support]
+  simp only [weightLE, total, div_one, Real.rpow_one]
+  split_ifs <;> norm_num
+
+/-- real exponents `0 < n ≤ m`: the average curve is non-decreasing (maximise) / non-increasing (minimise) in `n` -/
+theorem average_monotone_in_n_rpow (obs : List (ℝ × ℝ)) (hnn : NonNeg obs) (htot : 0 < total obs)
+    (n m : ℝ) (hn : 0 < n) (hnm : n ≤ m) :
+    avgSum (bestWeights (fun x => x ^ n) false (withPrev (cumN (atoms obs))))
+      ≤ avgSum (bestWeights (fun x => x ^ m) false (withPrev (cumN (atoms obs)))) :=
+  average_mono_max_rpow obs hnn htot n m hn hnm
+
+theorem average_monotone_in_n_rpow_minimize (obs : List (ℝ × ℝ)) (hnn : NonNeg obs) (htot : 0 < total obs)
+    (n m : ℝ) (hn : 0 < n) (hnm : n ≤ m) :
+    avgSum (bestWeights (fun x => x ^ m) true (withPrev (cumN (atoms obs))))
+      ≤ avgSum (bestWeights (fun x => x ^ n) true (withPrev (cumN (atoms obs)))) :=
+  average_mono_min_rpow obs hnn htot n m hn hnm
+
+/-- non-vacuity of the monotonicity theorems: a tied real sample with a zero weight -/
+example : NonNeg ([(2, 1), (2, 1/2), (5, 0), (-1, 3)] : List (ℝ × ℝ))
+    ∧ (0:ℝ) < total ([(2, 1), (2, 1/2), (5, 0), (-1, 3)] : List (ℝ × ℝ)) := by
+  constructor
+  · intro p hp
+    simp only [List.mem_cons, List.not_mem_nil, or_false] at hp
+    rcases hp with rfl | rfl | rfl | rfl <;> norm_num
+  · norm_num [total]
+
+/-! ### the terms the driver evaluates for `avg` and `v` -/
+
+/-- the reply of the driver's `avg` op for a finitely-valued sample is the plain sum `Σ_j v_j·w_j` over the merged atoms
+(padding atoms at −∞, a, b, +∞ carry weight exactly 0 and are filtered) — the quantity the theorems above are about. -/
+theorem avg_op_driver (pw : ℚ → ℚ) (mn : Bool) (a b : Ext) (obs : List (ℚ × ℚ)) :
+    wsum ((bestWeights pw mn (withPrev (cumN (support Ext.negInf Ext.posInf a b (mapObs Ext.fin obs))))).filter
+        fun p => p.2 ≠ 0)
+      = some (Ext.fin (avgSum (bestWeights pw mn (withPrev (cumN (atoms obs)))))) := avg_driver pw mn a b obs
+
+/-- the reply of the driver's `v` op -/
+theorem v_op_driver (ws : List ℚ) (rev : Bool) (ys : List ℚ) :
+    wsum (((if rev then (Opda.Band.sort (ys.map Ext.fin)).reverse else Opda.Band.sort (ys.map Ext.fin)).zip ws).filter
+        fun p => p.2 ≠ 0)
+      = some (Ext.fin (avgSum ((if rev then (Opda.Band.sort ys).reverse else Opda.Band.sort ys).zip ws))) :=
+  v_driver ws rev ys
+
+/-- **`v` op = `avg` op on the driver's own terms**, every finite unweighted sample, any bounds, both `minimize` settings,
+every `pw` (the driver uses `x ↦ xⁿ`). -/
+theorem v_op_eq_avg_op_driver (pw : ℚ → ℚ) (mn : Bool) (a b : Ext) (ys : List ℚ) (hne : ys ≠ []) :
+    wsum (((if mn then (Opda.Band.sort (ys.map Ext.fin)).reverse else Opda.Band.sort (ys.map Ext.fin)).zip
+        (vWeights pw ys.length)).filter fun p => p.2 ≠ 0)
+      = wsum ((bestWeights pw mn (withPrev (cumN (support Ext.negInf Ext.posInf a b
+          ((ys.map Ext.fin).map fun y => (y, (1 : ℚ))))))).filter fun p => p.2 ≠ 0) :=
+  v_driver_eq_avg_driver pw mn a b ys hne
 
 end Opda.Props.C04
 
